@@ -160,6 +160,28 @@ def op_menu(n, m, kinds):
         ('iter_window(2)', lambda f: tuple(f.iter_window_items(size=2))), ('iter_window_array(2,ax1)', lambda f: tuple(f.iter_window_array_items(size=2, axis=1))),
     ]
     ops += simple
+    # Boolean-frame (bloc) assignment with coordinate-labelled values: masks that leave leading / middle / trailing blocks without a True
+    def mk(pattern):
+        def mask(f):
+            nn, mm = f.shape
+            return sf.Frame(np.array([[pattern(i, j, nn, mm) for j in range(mm)] for i in range(nn)], dtype=bool).reshape(nn, mm), index=f.index, columns=f.columns)
+        return mask
+    patterns = {'last-col': lambda i, j, nn, mm: j == mm - 1, 'not-first-col': lambda i, j, nn, mm: j > 0, 'checker': lambda i, j, nn, mm: (i + j) % 2 == 1,
+                'first-col': lambda i, j, nn, mm: j == 0, 'middle-col': lambda i, j, nn, mm: j == 1, 'last-row': lambda i, j, nn, mm: i == nn - 1}
+    for pn, pat in patterns.items():
+        ops.append((f'assign.bloc[{pn}](elem)', lambda f, pat=pat: f.assign.bloc[mk(pat)(f)](-5)))
+        ops.append((f'assign.bloc[{pn}](Series)', lambda f, pat=pat: f.assign.bloc[mk(pat)(f)](f.bloc[mk(pat)(f)].iloc[::-1])))
+        ops.append((f'assign.bloc[{pn}].apply', lambda f, pat=pat: f.assign.bloc[mk(pat)(f)].apply(lambda x: x.astype(str) + '!')))
+        ops.append((f'assign.bloc[{pn}-array](elem)', lambda f, pat=pat: f.assign.bloc[mk(pat)(f).values](None)))
+        ops.append((f'bloc[{pn}]-sorted', lambda f, pat=pat: tuple(sorted(map(repr, f.bloc[mk(pat)(f)].to_pairs())))))
+    if m >= 2:
+        cv = lambda f: list(f.columns.values)
+        for t in (float, object, str):
+            tn = t.__name__
+            ops.append((f'astype[[last,first]]({tn})', lambda f, t=t: f.astype[[cv(f)[-1], cv(f)[0]]](t)))
+            ops.append((f'astype[[1,0]]({tn})', lambda f, t=t: f.astype[[cv(f)[1], cv(f)[0]]](t)))
+        ops.append(('astype[slice]', lambda f: f.astype[cv(f)[0]:cv(f)[1]](object)))
+        ops.append(('astype(mapping-rev)', lambda f: f.astype({cv(f)[-1]: object, cv(f)[0]: object})))
     if set(kinds) <= {'int', 'floatnan'} and n >= 1 and m >= 1:
         for fn in ('sum', 'prod', 'min', 'max', 'mean', 'median', 'std', 'var', 'cumsum', 'cumprod'):
             for axis in (0, 1):
@@ -252,6 +274,10 @@ def run_case(case, ctx):
                 opclass = 'iloc[' + ('int' if name[5:].split(',')[0].lstrip('-').isdigit() else 'multi') + ',' + ('int' if name.rsplit(',', 1)[1][:-1].lstrip('-').isdigit() else 'multi') + ']'
             elif '.iloc[' in name:
                 opclass = name.split('.iloc[')[0] + '.iloc[...]' + name.rsplit(']', 1)[1]
+            elif name.startswith('assign.bloc['):
+                opclass = 'assign.bloc[...]'      # one mechanism whatever the mask / value
+            elif name.startswith('astype[['):
+                opclass = 'astype[list]' + name.rsplit(']', 1)[1]
             kinds_has = '+'.join(sorted(set(kinds)))
             dsig = diff_signature(objs[groups[0][0]], objs[groups[1][0]])
             ctx.violation(f'layout-dependent|{opclass}|{dsig}', kinds=kinds, nrows=n, operation=name,
